@@ -18,6 +18,9 @@ for meta_path in sorted(glob.glob(os.path.join(ROOT, "seeded", "*", "meta.json")
         print("/repo not clean, abort"); sys.exit(2)
     ap = subprocess.run(["git", "-C", "/repo", "apply", os.path.join(d, "patch.diff")], capture_output=True, text=True)
     if ap.returncode != 0:
+        # /repo has moved on since the change was written (fix: commits): try with reduced context
+        ap = subprocess.run(["git", "-C", "/repo", "apply", "-C1", os.path.join(d, "patch.diff")], capture_output=True, text=True)
+    if ap.returncode != 0:
         rows.append((sid, meta["breaks_property"], "PATCH DOES NOT APPLY", ""))
         continue
     verdict, obl = "missed", []
